@@ -2,7 +2,9 @@
 
    Objects (Model/SCP.v): [burst cf cmds evs k] runs SCPConnection.send_scp_burst (send_scp = one command,
    window 1) on the connection state k (sequence generator, clock, socket buffer left by earlier calls) with
-   the configuration cf = (window, tries, default timeout), the commands cmds (identity, extra timeout) and
+   the configuration cf = (window, tries, default timeout, and the time user code takes: per command, how long
+   the command iterable needs to yield it and how long its callback runs), the commands cmds (identity, extra
+   timeout) and
    the environment evs : one event per select = (datagrams that arrived, clock after the select).  It returns
    the trace (sock.send, select, sock.recv, callback invocations, in order), the outcome (Returned /
    RaisedTimeout c / RaisedFatal rc c / ...), the connection afterwards and the unused events.
@@ -158,10 +160,10 @@ Example C06_hypotheses_satisfiable :
 Proof. exact ex_satisfiable. Qed.
 
 Example C06_timeout_outcome_exists :
-  exists tr k' rest, burst (Cf 1 2 10) [Cmd 7 0] [Ev [] 11; Ev [] 22] conn0 = (tr, RaisedTimeout 7, k', rest).
+  exists tr k' rest, burst (Cf 1 2 10 [] []) [Cmd 7 0] [Ev [] 11; Ev [] 22] conn0 = (tr, RaisedTimeout 7, k', rest).
 Proof. exact ex_timeout. Qed.
 
 Example C06_fatal_outcome_exists :
   exists tr k' rest,
-    burst (Cf 1 2 10) [Cmd 7 0] [Ev [Dg rc_cpu 0 0] 1] conn0 = (tr, RaisedFatal rc_cpu (Some 7), k', rest).
+    burst (Cf 1 2 10 [] []) [Cmd 7 0] [Ev [Dg rc_cpu 0 0] 1] conn0 = (tr, RaisedFatal rc_cpu (Some 7), k', rest).
 Proof. exact ex_fatal. Qed.
